@@ -115,12 +115,24 @@ pub struct Case {
     pub if_unmodified_since: Cond,
     /// explicit tail (replay form)
     pub tail: Option<String>,
+    /// 0 = GET, 1 = HEAD (same resource, same oracle), 2 = POST, 3 = DELETE (must be refused)
+    #[serde(default)]
+    pub method: u8,
 }
 
 const TOKENS: [&str; 30] = [
     "a.txt", "empty", "one", "big.bin", "index.html", "dir", "inner.txt", ".hidden", ".dot", ".", "..", "%2e", "%2E%2E", "%2e%2e", "..%2f", "%2f", "%2F..", "%5c", "%5c..", "%00", "%25", "%252e%252e",
     "%C3%BC", "canary.txt", "canarydir", "secret.txt", "rootx", "nonexistent", "", "root",
 ];
+
+fn method_of(m: u8) -> actix_web::http::Method {
+    match m {
+        1 => actix_web::http::Method::HEAD,
+        2 => actix_web::http::Method::POST,
+        3 => actix_web::http::Method::DELETE,
+        _ => actix_web::http::Method::GET,
+    }
+}
 
 fn tail_of(case: &Case) -> String {
     if let Some(t) = &case.tail {
@@ -261,7 +273,7 @@ pub fn run_case(cfg: &RunCfg, case: &Case) -> Verdict {
         let lm = plain.headers().get("last-modified").and_then(|v| v.to_str().ok()).map(|s| s.to_string());
         let plain_status = plain.status();
         let plain_body = test::read_body(plain).await;
-        let mut req = test::TestRequest::with_uri(&uri2);
+        let mut req = test::TestRequest::with_uri(&uri2).method(method_of(case.method));
         if let Some(r) = &range2 {
             req = req.insert_header(("range", r.as_str()));
         }
@@ -323,8 +335,11 @@ pub fn run_case(cfg: &RunCfg, case: &Case) -> Verdict {
         .class_if(got.status == 206, "206")
         .class_if(got.status == 416, "416")
         .class_if(got.status == 304, "304")
-        .class_if(got.status == 412, "412");
-    let ctx = || format!("[GET {uri} Range {range_hdr:?} conditionals {sent:?} options listing={} index={} hidden={} redirect={}]", case.listing, case.index, case.hidden, case.redirect);
+        .class_if(got.status == 412, "412")
+        .class_if(case.method == 1, "HEAD")
+        .class_if(case.method >= 2, "method-not-served");
+    let mname = method_of(case.method);
+    let ctx = || format!("[{mname} {uri} Range {range_hdr:?} conditionals {sent:?} options listing={} index={} hidden={} redirect={}]", case.listing, case.index, case.hidden, case.redirect);
     // ---- containment: whatever is served is a file under the root
     for (what, status, body) in [("plain", plain_status.as_u16(), &plain_body), ("conditional/range", got.status, &got.body)] {
         if util::find_sub(body, CANARY.as_bytes()).is_some() {
@@ -354,6 +369,16 @@ pub fn run_case(cfg: &RunCfg, case: &Case) -> Verdict {
         if !is_file {
             return v.fail_with(format!("200 body ({} bytes: {}) is not the content of any file under the root {}", plain_body.len(), util::show_bytes(&plain_body, 60), ctx()));
         }
+    }
+    // ---- methods other than GET/HEAD are refused whatever the path (default guards): an error, never a file
+    if case.method >= 2 {
+        if !matches!(got.status, 400..=499) {
+            return v.fail_with(format!("status {} for a method the file service does not serve {}", got.status, ctx()));
+        }
+        if FILES.iter().any(|(rel, len)| *len >= 7 && util::find_sub(&got.body, &content_of(rel, *len)[..(*len).min(16)]).is_some()) {
+            return v.fail_with(format!("error response ({}) carries file content {}", got.status, ctx()));
+        }
+        return v;
     }
     // ---- a plain path to an existing file is served, completely
     if let Some((rel, len)) = target {
@@ -588,8 +613,9 @@ fn case_strategy(files_only: bool) -> impl Strategy<Value = Case> {
         (any::<bool>(), any::<bool>(), any::<bool>(), any::<bool>()),
         range_strategy(),
         (cond_etag(), cond_etag(), cond_date(), cond_date()),
+        prop_oneof![12 => Just(0u8), 4 => Just(1u8), 1 => Just(2u8), 1 => Just(3u8)],
     )
-        .prop_map(move |(tokens, seps, (listing, index, hidden, redirect), range, (if_match, if_none_match, if_modified_since, if_unmodified_since))| Case {
+        .prop_map(move |(tokens, seps, (listing, index, hidden, redirect), range, (if_match, if_none_match, if_modified_since, if_unmodified_since), method)| Case {
             tokens,
             seps,
             listing,
@@ -602,12 +628,13 @@ fn case_strategy(files_only: bool) -> impl Strategy<Value = Case> {
             if_modified_since,
             if_unmodified_since,
             tail: None,
+            method,
         })
 }
 
 pub fn run(cfg: &RunCfg) -> Report {
     let mut rep = Report::new("C16");
-    rep.rule = "temp tree: served root with files of length 0/1/10/25/33/40/70000 whose contents encode their own relative path, a hidden file, a hidden file in a sub-directory, index files, plus a canary file, a canary directory and a look-alike sibling directory next to the root; Files::new(\"/static\", root) with show_files_listing / index_file / use_hidden_files / redirect_to_slash_directory toggled; phase paths: 0-5 tokens from real names, '.', '..', %2e, %2E%2E, ..%2f, %2f, %5c, %00, %25, %252e%252e, UTF-8, names that exist only outside the root, joined by '/', '//' or nothing; phase files: plain paths to existing files x Range grammar (first-last, from, suffix, multi, offsets relative to the file end, 2^62, 2^63, 2^64-1, 2^64, inverted, spaces, garbage) x If-Match / If-None-Match (own etag, other, *, garbage) x If-Modified-Since / If-Unmodified-Since (mtime +-0/1/100 s, garbage); \
+    rep.rule = "temp tree: served root with files of length 0/1/10/25/33/40/70000 whose contents encode their own relative path, a hidden file, a hidden file in a sub-directory, index files, plus a canary file, a canary directory and a look-alike sibling directory next to the root; Files::new(\"/static\", root) with show_files_listing / index_file / use_hidden_files / redirect_to_slash_directory toggled; phase paths: 0-5 tokens from real names, '.', '..', %2e, %2E%2E, ..%2f, %2f, %5c, %00, %25, %252e%252e, UTF-8, names that exist only outside the root, joined by '/', '//' or nothing; phase files: plain paths to existing files x Range grammar (first-last, from, suffix, multi, offsets relative to the file end, 2^62, 2^63, 2^64-1, 2^64, inverted, spaces, garbage) x If-Match / If-None-Match (own etag, other, *, garbage) x If-Modified-Since / If-Unmodified-Since (mtime +-0/1/100 s, garbage); both phases x method GET (2/3) / HEAD (2/9, same oracle as GET: the handler-level response is the same resource) / POST, DELETE (1/9: must be a 4xx without file content); \
                 non-trivial = a path with a dot segment or an encoded separator / NUL / percent, or a range request on a file of length 0 or 1 or with a number >= 2^62; distinct by hash of the case"
         .into();
     rep.assumptions = vec![
